@@ -12,6 +12,7 @@
  */
 #define _GNU_SOURCE
 #include <stdio.h>
+extern int h_fail_fclose;   /* io_wrap.c */
 #include "filecase.h"
 #include <errno.h>
 #include <sys/stat.h>
@@ -110,7 +111,9 @@ static void run_sink(hctx* h, fcase* fc, int kind, long k, const uint8_t* good, 
     wo.compression = (carquet_compression_t)fc->codec; wo.page_size = fc->page;
     static sink_t s; memset(&s, 0, sizeof s); s.byte_budget = kind == 0 ? k : -1; s.op_budget = (kind == 1 || kind == 4) ? k : -1; s.transient = kind == 4;
     FILE* fp = NULL; carquet_writer_t* w = NULL;
+    char fpath[128]; snprintf(fpath, sizeof fpath, "/tmp/verif_c18_%d_fc.parquet", (int)getpid());
     if (kind == 3) { w = carquet_writer_create("/dev/full", sc, &wo, &err); }
+    else if (kind == 5) { w = carquet_writer_create(fpath, sc, &wo, &err); }   /* path-based writer whose fclose will fail */
     else {
         cookie_io_functions_t io = { NULL, sink_write, NULL, sink_close };
         fp = fopencookie(&s, "wb", io);
@@ -139,18 +142,21 @@ static void run_sink(hctx* h, fcase* fc, int kind, long k, const uint8_t* good, 
             fprintf(h->out, "%s%d", first ? "" : ",", r); first = 0; if (r != 0) any_bad = 1;
         }
         s.call = fc->nsteps;
+        if (kind == 5) h_fail_fclose = 1;          /* every write and the flush succeed; close(2) reports a deferred error */
         int r = (int)carquet_writer_close(w); last_close = r;
+        if (kind == 5) { h_fail_fclose = 0; unlink(fpath); }
         fprintf(h->out, "%s%d", first ? "" : ",", r); if (r != 0) any_bad = 1;
     }
     int failed = s.failed;
     if (kind == 3) failed = 1;                      /* /dev/full: every flush fails with ENOSPC */
+    if (kind == 5) failed = 1;                      /* fclose reported failure: OK from close would be a lie */
     s.call = fc->nsteps + 1;
     if (fp) { if (fflush(fp) != 0) { /* the harness's own flush: bytes still buffered never reached the sink */ } fclose(fp); }
     int ok_bytes = 1;
-    if (!any_bad && kind != 3) ok_bytes = ((size_t)s.sunk == ngood && memcmp(s.data, good, ngood) == 0);
+    if (!any_bad && kind != 3 && kind != 5) ok_bytes = ((size_t)s.sunk == ngood && memcmp(s.data, good, ngood) == 0);
     /* the caller carried on after a failed call: OK from close must still mean the sink holds the whole file */
     int close_ok_bytes = 1;
-    if (w && kind != 3 && last_close == 0) close_ok_bytes = ((size_t)s.sunk == ngood && memcmp(s.data, good, ngood) == 0);
+    if (w && kind != 3 && kind != 5 && last_close == 0) close_ok_bytes = ((size_t)s.sunk == ngood && memcmp(s.data, good, ngood) == 0);
     /* what the sink holds (FNV-1a 64 of its bytes) and the operations it was asked to do */
     { uint64_t hh = 0xcbf29ce484222325ULL; for (long q = 0; q < s.sunk; q++) { hh ^= s.data[q]; hh *= 0x100000001b3ULL; }
       fprintf(h->out, " sunk=%ld sunkh=%llu ev=", s.sunk, (unsigned long long)hh);
@@ -318,8 +324,35 @@ static void huge_len_case(fcase* fc) {
     for (int i = 0; i < n; i++) { t->vals[i] = h_alloc(4); memcpy(t->vals[i], &v[i], 4); t->vlen[i] = 4; }
 }
 
+/* directed: one REQUIRED BYTE_ARRAY column whose values are FileMetaData structs lacking every possible subset of the four
+ * required fields (1 version, 2 schema, 3 num_rows, 4 row_groups; mask bit i = field i+1 present; 15 = complete, the exception
+ * C18 allows), each followed by its length and the magic: the prefix cut right behind value j ends in
+ * <struct lacking fields> <len> "PAR1".  Every open path must refuse each of them except the complete one. */
+static int build_footer_subset(uint8_t* o, int mask) {
+    int n = 0, last = 0;
+    if (mask & 1) { o[n++] = (uint8_t)(((1 - last) << 4) | 5); o[n++] = 2; last = 1; }
+    if (mask & 2) { o[n++] = (uint8_t)(((2 - last) << 4) | 9); o[n++] = 0x1C; o[n++] = 0x48; o[n++] = 1; o[n++] = 'a'; o[n++] = 0; last = 2; }
+    if (mask & 4) { o[n++] = (uint8_t)(((3 - last) << 4) | 6); o[n++] = 0; last = 3; }
+    if (mask & 8) { o[n++] = (uint8_t)(((4 - last) << 4) | 9); o[n++] = 0x0C; last = 4; }
+    o[n++] = 0;
+    int len = n;
+    o[n++] = (uint8_t)len; o[n++] = 0; o[n++] = 0; o[n++] = 0; o[n++] = 'P'; o[n++] = 'A'; o[n++] = 'R'; o[n++] = '1';
+    return n;
+}
+static void subset_footers_case(fcase* fc) {
+    memset(fc, 0, sizeof *fc);
+    fc->ncols = 1; snprintf(fc->cols[0].name, sizeof fc->cols[0].name, "s"); fc->cols[0].rep = 0; fc->cols[0].ptype = 6; fc->cols[0].tlen = 0;
+    fc->codec = 0; fc->page = 1 << 20; fc->nsteps = 1;
+    fstep* t = &fc->steps[0]; t->kind = 0; t->col = 0; t->has_defs = 0; t->has_reps = 0;
+    int n = 16;
+    t->nrows = n; t->nvals = n; t->defs = (uint8_t*)h_alloc((size_t)n); memset(t->defs, 1, (size_t)n);
+    t->vals = (uint8_t**)h_alloc((size_t)n * sizeof(uint8_t*)); t->vlen = (int*)h_alloc((size_t)n * sizeof(int));
+    for (int i = 0; i < n; i++) { uint8_t tmp[64]; int l = build_footer_subset(tmp, i); t->vals[i] = h_alloc((size_t)l); memcpy(t->vals[i], tmp, (size_t)l); t->vlen[i] = l; }
+}
+
 static void gen_c18(hctx* h) {
     { fcase fc; huge_len_case(&fc); run_trunc(h, &fc); free_case(&fc); }
+    { fcase fc; subset_footers_case(&fc); run_trunc(h, &fc); free_case(&fc); }
     long files = h->thorough ? 100 : 8;
     for (long i = 0; i < files; i++) {
         fcase fc; gen_case(h, &fc, 1);
@@ -350,6 +383,7 @@ static void gen_c18(hctx* h) {
             for (long k = 0; k < 12; k++) run_sink(h, &fc, 4, k, good, ng, bufmode);   /* one failing operation, caller carries on */
         }
         run_sink(h, &fc, 3, 0, good, ng, 2);
+        run_sink(h, &fc, 5, 0, good, ng, 2);       /* path-based writer, everything written and flushed, fclose fails */
         if (i == 0 || (h->thorough && i % 2 == 0)) {   /* row groups around and beyond the 8 KiB buffer, faults at the block boundaries and at every operation */
             long tg[3]; int ntg = 2;
             if (i % 4 == 0) { tg[0] = 16400 + (long)h_below(h, 3000); tg[1] = 1500 + (long)h_below(h, 1500); }
